@@ -7,10 +7,15 @@ import (
 	"os"
 	"os/exec"
 	"path/filepath"
+	"runtime"
 	"strings"
 	"sync"
 	"time"
 )
+
+// solverSlots bounds the number of solver processes that run at the same time to the number of
+// cores: a solver's time limit is only meaningful when it has a core to itself.
+var solverSlots = make(chan struct{}, runtime.NumCPU())
 
 type solverSpec struct {
 	name string
@@ -44,6 +49,10 @@ func firstLine(s string) string {
 // runSolvers races the portfolio on one query. In quick mode the first "unsat" wins; a "sat"
 // answer also ends the race (the obligation is refuted).
 func runSolvers(query string, file string, secs int, thorough bool) solveResult {
+	return runSolverSet(solvers, query, file, secs, thorough)
+}
+
+func runSolverSet(solvers []solverSpec, query string, file string, secs int, thorough bool) solveResult {
 	if err := os.WriteFile(file, []byte(query), 0o644); err != nil {
 		return solveResult{status: "error", out: err.Error()}
 	}
@@ -57,6 +66,13 @@ func runSolvers(query string, file string, secs int, thorough bool) solveResult 
 	for _, sp := range solvers {
 		sp := sp
 		go func() {
+			select {
+			case solverSlots <- struct{}{}:
+			case <-ctx.Done():
+				ch <- one{sp.name, "cancelled", "", 0}
+				return
+			}
+			defer func() { <-solverSlots }()
 			t0 := time.Now()
 			a := sp.args(file, secs)
 			cmd := exec.CommandContext(ctx, a[0], a[1:]...)
@@ -115,6 +131,30 @@ func runSolvers(query string, file string, secs int, thorough bool) solveResult 
 	return res
 }
 
+// hints: obligation name -> strategy that proved it in an earlier run (committed file hints.json).
+type hint struct {
+	Stage  int    `json:"stage"`
+	Solver string `json:"solver"`
+}
+
+var hints = map[string]hint{}
+
+// runSolversOnly runs a single named solver.
+func runSolversOnly(query, file string, secs int, name string) solveResult {
+	saved := solvers
+	var one []solverSpec
+	for _, sp := range solvers {
+		if sp.name == name {
+			one = append(one, sp)
+		}
+	}
+	if len(one) == 0 {
+		return solveResult{status: "unknown"}
+	}
+	_ = saved
+	return runSolverSet(one, query, file, secs, false)
+}
+
 // discharge runs all obligations in parallel.
 func discharge(sc *Script, obls []*Obligation, outDir string, secs int, thorough bool, par int) {
 	os.MkdirAll(outDir, 0o755)
@@ -138,17 +178,46 @@ func discharge(sc *Script, obls []*Obligation, outDir string, secs int, thorough
 			if short > 5 {
 				short = 5
 			}
-			for _, depth := range []int{1, 2} {
-				r = runSolvers(tag+sc.query(o.Pos, o.Goal, false, abs, depth), file, short, false)
+			isCover := o.Kind == "cover" || o.Kind == "vacuity"
+			stageQuery := func(stage int) (string, int) {
+				switch stage {
+				case 1, 2:
+					return sc.query(o.Pos, o.Goal, false, abs, stage), short
+				case 3:
+					return sc.query(o.Pos, o.Goal, false, true, 0), secs
+				}
+				return sc.query(o.Pos, o.Goal, true, false, 0), secs
+			}
+			done := false
+			// strategy hint from an earlier run (which stage and solver proved this obligation): tried
+			// first, alone; the full staged portfolio follows if it does not prove the goal now
+			if h, ok := hints[o.Name]; ok && !thorough && !isCover && h.Stage >= 1 && h.Stage <= 4 && (h.Stage != 3 || abs) {
+				q, t := stageQuery(h.Stage)
+				r = runSolversOnly(tag+q, file, t, h.Solver)
 				if r.status == "unsat" {
-					break
+					o.Stage = h.Stage
+					done = true
 				}
 			}
-			if r.status != "unsat" && abs {
-				r = runSolvers(tag+sc.query(o.Pos, o.Goal, false, true, 0), file, secs, thorough)
+			if !done && !isCover {
+				for _, depth := range []int{1, 2} {
+					q, t := stageQuery(depth)
+					r = runSolvers(tag+q, file, t, false)
+					if r.status == "unsat" {
+						o.Stage = depth
+						break
+					}
+				}
+				if r.status != "unsat" && abs {
+					q, t := stageQuery(3)
+					r = runSolvers(tag+q, file, t, thorough)
+					o.Stage = 3
+				}
 			}
-			if r.status != "unsat" {
-				r = runSolvers(tag+sc.query(o.Pos, o.Goal, true, false, 0), file, secs, thorough)
+			if !done && r.status != "unsat" {
+				q, t := stageQuery(4)
+				r = runSolvers(tag+q, file, t, thorough)
+				o.Stage = 4
 			}
 			if r.status != "unsat" && o.Except != "" && o.Kind != "cover" && o.Kind != "vacuity" {
 				// known finding: does the obligation hold for every input outside the recorded ones?
